@@ -308,7 +308,30 @@ func (g *FnGen) entryEnv() *Env {
 func (g *FnGen) localEnv(at *ssa.BasicBlock, phiVals map[*ssa.Phi]Val) *Env {
 	e := g.baseEnv()
 	e.lookup = func(name string) (Val, bool) { return g.lookupLocal(name, at, phiVals) }
+	e.at = at
 	return e
+}
+
+// rangeFor: the range-over-map state a contract expression refers to: the only one of the function, or the one whose
+// loop header is the block the expression is evaluated at (loop invariants of functions with several range loops).
+func (g *FnGen) rangeFor(at *ssa.BasicBlock) *rangeState {
+	if len(g.ranges) == 1 {
+		for _, rs := range g.ranges {
+			return rs
+		}
+	}
+	if at != nil {
+		for _, ins := range at.Instrs {
+			if nx, ok := ins.(*ssa.Next); ok {
+				if r, ok := nx.Iter.(*ssa.Range); ok {
+					if rs := g.ranges[r]; rs != nil {
+						return rs
+					}
+				}
+			}
+		}
+	}
+	return nil
 }
 
 // ---------------------------------------------------------------- main driver for one function
@@ -328,9 +351,14 @@ func (g *FnGen) run() {
 			t := env.resolveType(gv.Type)
 			fam := "Ghost_" + sanitize(gv.Name)
 			g.ghost[gv.Name] = fam
-			g.ghostSort[gv.Name] = g.sortOf(t)
+			gs := g.sortOf(t)
+			if mt, isMap := t.Underlying().(*types.Map); isMap {
+				// a ghost of map type is a total function K -> V (an SMT array value), read with name[k]
+				gs = fmt.Sprintf("(Array %s %s)", g.sortOf(mt.Key()), g.sortOf(mt.Elem()))
+			}
+			g.ghostSort[gv.Name] = gs
 			g.ghostType[gv.Name] = t
-			g.famInit(fam, fmt.Sprintf("(Array Int %s)", g.sortOf(t)))
+			g.famInit(fam, fmt.Sprintf("(Array Int %s)", gs))
 		}
 	}
 	// parameters (free variables of closures are ghost parameters)
@@ -720,6 +748,11 @@ func (g *FnGen) loopHeader(li *loopInfo, entryPhi map[*ssa.Phi]Val) {
 	}
 	// 2. which heap families does the loop modify? dry run on a clone.
 	mod, all := g.dryRun(li, entryPhi)
+	li.mod = map[string]bool{}
+	for _, f := range mod {
+		li.mod[f] = true
+	}
+	li.modAll = all
 	// 3. havoc
 	if all {
 		e := g.newEpoch()
@@ -736,7 +769,7 @@ func (g *FnGen) loopHeader(li *loopInfo, entryPhi map[*ssa.Phi]Val) {
 				g.assume(fmt.Sprintf("(>= %s %s)", n, old))
 				continue
 			}
-			if strings.HasPrefix(f, "Visited_") || strings.HasPrefix(f, "Ghost_") {
+			if strings.HasPrefix(f, "Visited_") || strings.HasPrefix(f, "VisitedN_") || strings.HasPrefix(f, "Ghost_") {
 				continue
 			}
 			// loop frame: objects that existed at function entry and are not named in the loop's
@@ -849,7 +882,7 @@ func (g *FnGen) loopFrameCheck(fam, ref string, pos token.Pos) {
 	if g.dry || g.curBlock == nil || strings.HasPrefix(ref, "ref!") {
 		return
 	}
-	if strings.HasPrefix(fam, "Visited_") || strings.HasPrefix(fam, "Ghost_") || fam == "$alloc" {
+	if strings.HasPrefix(fam, "Visited_") || strings.HasPrefix(fam, "VisitedN_") || strings.HasPrefix(fam, "Ghost_") || fam == "$alloc" {
 		return
 	}
 	a0 := g.heapGet(g.init, "$alloc", "Int")
@@ -1026,6 +1059,8 @@ type rangeState struct {
 	m       Val
 	mt      *types.Map
 	visited string // family name of ghost visited set
+	cnt     string // family name of the ghost iteration counter
+	len0    string // len(m) when the range started
 }
 
 func (g *FnGen) rangeInstr(i *ssa.Range) {
@@ -1038,7 +1073,13 @@ func (g *FnGen) rangeInstr(i *ssa.Range) {
 		g.famInit(fam, sort)
 		h := g.heapGet(g.cur, fam, sort)
 		g.heapSet(g.cur, fam, fmt.Sprintf("(store %s 0 ((as const (Array %s Bool)) false))", h, g.sortOf(u.Key())))
-		g.ranges[i] = &rangeState{m: x, mt: u, visited: fam}
+		cfam := fmt.Sprintf("VisitedN_%s", sanitize(i.Name()))
+		g.famInit(cfam, "(Array Int Int)")
+		g.heapSet(g.cur, cfam, fmt.Sprintf("(store %s 0 0)", g.heapGet(g.cur, cfam, "(Array Int Int)")))
+		lf, ls := g.mapLenFam(u)
+		len0 := g.fresh("rangelen", "Int")
+		g.assume(fmt.Sprintf("(= %s (ite (= %s 0) 0 (select %s %s)))", len0, x.T, g.heapGet(g.cur, lf, ls), x.T))
+		g.ranges[i] = &rangeState{m: x, mt: u, visited: fam, cnt: cfam, len0: len0}
 		g.vals[i] = Val{T: "0", S: "Int", GT: i.Type()}
 	default:
 		g.unsupported("range over %s (only maps; strings unsupported)", i.X.Type())
@@ -1069,6 +1110,22 @@ func (g *FnGen) nextInstr(i *ssa.Next) {
 	val := Val{T: vv, S: g.sortOf(mt.Elem()), GT: mt.Elem()}
 	g.assumeHere(g.typeFacts(val, mt.Elem()))
 	g.refFacts(val, mt.Elem())
+	// iteration counter; a range over a map the loop does not modify produces every key once: on exit the
+	// number of iterations is len(m)
+	if g.mode == "int" {
+		ch := g.heapGet(g.cur, rs.cnt, "(Array Int Int)")
+		unmodified := false
+		for _, li := range g.loops {
+			if li.header == i.Block() && li.mod != nil && !li.modAll && !li.mod[pf] {
+				unmodified = true
+			}
+		}
+		if unmodified {
+			g.assumeHere(fmt.Sprintf("(=> (not %s) (= (select %s 0) %s))", ok, ch, rs.len0))
+			g.assumeHere(fmt.Sprintf("(=> %s (< (select %s 0) %s))", ok, ch, rs.len0))
+		}
+		g.heapSet(g.cur, rs.cnt, fmt.Sprintf("(ite %s (store %s 0 (+ (select %s 0) 1)) %s)", ok, ch, ch, ch))
+	}
 	// mark visited (only meaningful when ok)
 	h := g.heapGet(g.cur, vfam, g.famSort[vfam])
 	g.heapSet(g.cur, vfam, fmt.Sprintf("(ite %s (store %s 0 (store (select %s 0) %s true)) %s)", ok, h, h, k, h))
